@@ -8,10 +8,9 @@ git apply "$patch"
 cd /verif
 for id in "$@"; do
   start=$(date +%s)
-  out=$(python3 check/check.py $id 2>&1 | tail -3)
-  rc=$?
-  echo "== $id ($(( $(date +%s) - start ))s): $(echo "$out" | grep -E 'VIOLATION|KNOWN' | head -2 | cut -c1-250)"
-  [ -z "$(echo "$out" | grep VIOLATION)" ] && echo "   (no violation reported)"
+  out=$(python3 check/check.py $id 2>&1 | tail -6)
+  echo "== $id ($(( $(date +%s) - start ))s): $(echo "$out" | grep -E 'VIOLATION' | head -1 | cut -c1-250)"
+  [ -z "$(echo "$out" | grep VIOLATION)" ] && echo "   (no violation reported) $(echo "$out" | grep -c KNOWN) known-finding line(s)"
 done
 git -C /repo checkout -- .
 git -C /verif checkout -- lean/Cuckoo/Gen 2>/dev/null
